@@ -378,6 +378,92 @@ theorem sumOfProductsPrecomp256_eq (points : List (Aff F)) (ks : List Nat) (pre 
       mod_and_small _ 16 (by decide), mod_and_small _ 4 (by decide), byteAt_def]
     rfl
 
+/-! ## `wnaf_table` -/
+
+theorem wnafTable_loop (dbl : Jac F) (step : List (Jac F) × Jac F → Nat → List (Jac F) × Jac F)
+    (hstep : ∀ st i, step st i = (st.1 ++ [st.2], st.2.add dbl)) :
+    ∀ n s t b acc, t = acc.reverse →
+      (List.foldl step (t, b) (List.range' s n)).1 = wnafTableLoop dbl n b acc := by
+  intro n
+  induction n with
+  | zero => intro s t b acc h; exact h
+  | succ n ih =>
+    intro s t b acc h
+    rw [List.range'_succ, List.foldl_cons, hstep, wnafTableLoop]
+    exact ih _ _ _ _ (by rw [List.reverse_cons, h])
+
+theorem wnafTable_eq (old : List (Jac F)) (base : Jac F) (window : Nat) (hw : 1 ≤ window) :
+    M.wnafTable old base window = some (wnafTable old base window) := by
+  unfold M.wnafTable wnafTable
+  simp only [usub_of_le hw, Jac_double_eq, Jac_add_eq, Nat.one_shiftLeft]
+  have := wnafTable_loop base.double (fun (x : List (Jac F) × Jac F) (_ : Nat) => (x.1 ++ [x.2], x.2.add base.double))
+    (fun st i => rfl) (2 ^ (window - 1)) 0 (List.take 0 old) base [] rfl
+  rw [← this]
+  rfl
+
+theorem wnafTable_zero (old : List (Jac F)) (base : Jac F) : M.wnafTable old base 0 = none := rfl
+
+/-! ## `wnaf_exp` -/
+
+/-- one iteration of the loop of `wnaf_exp`, as in the model's `wnafExpLoop` -/
+def wnafExpStep (T : List (Jac F)) (st : Jac F × Bool) (n : Int) : Option (Jac F × Bool) :=
+  let res := if st.2 then st.1.double else st.1
+  if n ≠ 0 then
+    if n > 0 then
+      match T[(n / 2).toNat]? with
+      | none => none
+      | some e => some (res.add e, true)
+    else
+      match T[((-n) / 2).toNat]? with
+      | none => none
+      | some e => some (res.sub e, true)
+  else some (res, st.2)
+
+theorem wnafExp_loop (T : List (Jac F)) (f : Jac F × Bool → Int → Option (Jac F × Bool))
+    (hf : ∀ st n, f st n = wnafExpStep T st n) :
+    ∀ (L : List Int) (st : Jac F × Bool),
+      (match M.forIn L st f with
+        | none => none
+        | some (result, _) => some result) = wnafExpLoop T.toArray L st := by
+  intro L
+  induction L with
+  | nil => intro st; obtain ⟨r, b⟩ := st; rfl
+  | cons n L ih =>
+    intro st
+    obtain ⟨r, b⟩ := st
+    rw [forIn_cons, hf, wnafExpLoop, wnafExpStep]
+    simp only [List.getElem?_toArray, Option.bind_eq_bind]
+    by_cases h0 : n ≠ 0
+    · by_cases h1 : n > 0
+      · simp only [h0, h1, if_true, ne_eq, not_false_eq_true]
+        cases T[(n / 2).toNat]? with
+        | none => rfl
+        | some e => exact ih _
+      · simp only [h0, h1, if_true, if_false, ne_eq, not_false_eq_true]
+        cases T[((-n) / 2).toNat]? with
+        | none => rfl
+        | some e => exact ih _
+    · simp only [h0, if_false]
+      exact ih _
+
+theorem wnafExp_eq (table : List (Jac F)) (wnaf : List Int) :
+    M.wnafExp table wnaf = wnafExp table wnaf := by
+  unfold M.wnafExp wnafExp
+  simp only [Jac_zero_eq, Jac_double_eq, Jac_add_eq, Jac_sub_eq]
+  refine wnafExp_loop table _ ?_ wnaf.reverse (Jac.zero, false)
+  intro st n
+  obtain ⟨r, b⟩ := st
+  unfold wnafExpStep
+  by_cases h0 : n ≠ 0
+  · by_cases h1 : n > 0
+    · have hd : Int.tdiv n 2 = n / 2 := Int.tdiv_eq_ediv_of_nonneg (by omega)
+      simp only [h0, h1, if_true, ne_eq, not_false_eq_true, hd]
+      cases table[(n / 2).toNat]? <;> rfl
+    · have hd : Int.tdiv (-n) 2 = (-n) / 2 := Int.tdiv_eq_ediv_of_nonneg (by omega)
+      simp only [h0, h1, if_true, if_false, ne_eq, not_false_eq_true, hd]
+      cases table[((-n) / 2).toNat]? <;> rfl
+  · simp only [h0, if_false]
+
 end
 
 /-! ## `find_pippinger_window` -/
@@ -487,5 +573,134 @@ theorem G2_recNum_eq (n : Nat) :
 
 theorem Jac_recScalar_eq (emp : List Nat → Nat) (s : List Nat) : M.Jac.recommendedWnafForScalar emp s = emp s := rfl
 theorem Jac_recNum_eq (emp : Nat → Nat) (n : Nat) : M.Jac.recommendedWnafForNumScalars emp n = emp n := rfl
+open PP.Limbs PP.C08Limb in
+section
+/-! ## `wnaf_form` -/
+
+/-- the body of the `while` loop of `wnaf_form` on limb lists (the shape of the generated code) -/
+def wnafBody (w : Nat) (st : List Int × List Nat) : Option (List Int × List Nat) :=
+  match (if D.FrRepr.is_odd st.2 then
+      match st.2[0]? with
+      | none => none
+      | some t1 =>
+        let u : Int := ((t1 % (1 <<< (w + 1)) : Nat) : Int)
+        let u := if u > ((1 <<< w : Nat) : Int) then u - ((1 <<< (w + 1) : Nat) : Int) else u
+        let c := if u > 0 then D.FrRepr.sub_noborrow st.2 (D.FrRepr.from_u64 (Int.toNat u))
+                 else D.FrRepr.add_nocarry st.2 (D.FrRepr.from_u64 (Int.toNat (-u)))
+        some (c, u)
+    else some (st.2, (0 : Int))) with
+  | none => none
+  | some (c, u) => some (st.1 ++ [u], D.FrRepr.div2 c)
+
+theorem frW : Mont.frP.W = 2 ^ 256 := rfl
+
+theorem from_u64_limbs {v : Nat} (hv : v < 2 ^ 64) :
+    Limbs 4 (D.FrRepr.from_u64 v) ∧ limbsToNat (D.FrRepr.from_u64 v) = v := by
+  rw [PP.GenDerive.FrRepr_from_u64]
+  refine ⟨⟨rfl, ?_⟩, ?_⟩
+  · intro l hl
+    simp only [List.mem_cons, List.mem_replicate] at hl
+    rcases hl with rfl | ⟨_, rfl⟩
+    · exact hv
+    · decide
+  · simp [limbsToNat, List.replicate]
+
+theorem wnafBody_spec (w : Nat) (wn : List Int) (cl : List Nat) (hcl : Limbs 4 cl) :
+    ∃ cl', wnafBody w (wn, cl) = some (wn ++ [(wnafStep (limbsToNat cl) w).1], cl') ∧ Limbs 4 cl' ∧
+      limbsToNat cl' = (wnafStep (limbsToNat cl) w).2 := by
+  obtain ⟨l0, l1, l2, l3, rfl⟩ : ∃ l0 l1 l2 l3, cl = [l0, l1, l2, l3] := by
+    obtain ⟨hlen, _⟩ := hcl
+    match cl, hlen with
+    | [l0, l1, l2, l3], _ => exact ⟨l0, l1, l2, l3, rfl⟩
+  have hl0 : l0 < 2 ^ 64 := hcl.2 l0 (by simp)
+  generalize hcN : limbsToNat [l0, l1, l2, l3] = cN
+  have hmod : cN % 2 ^ 64 = l0 := by
+    rw [← hcN, limbsToNat_cons, Nat.add_mul_mod_self_left, Nat.mod_eq_of_lt hl0]
+  have hodd : D.FrRepr.is_odd [l0, l1, l2, l3] = (cN % 2 == 1) := by
+    rw [PP.GenDerive.FrRepr_is_odd, isOdd_eq, hcN]
+  unfold wnafBody wnafStep
+  simp only [hodd, List.getElem?_cons_zero, hmod, Nat.one_shiftLeft]
+  by_cases hp : cN % 2 = 1
+  · simp only [hp, beq_self_eq_true, if_true]
+    generalize hu0 : l0 % 2 ^ (w + 1) = u0
+    have hu0lt : u0 < 2 ^ 64 := by rw [← hu0]; exact Nat.lt_of_le_of_lt (Nat.mod_le _ _) hl0
+    have hpow : (2 : Nat) ^ (w + 1) = 2 * 2 ^ w := by rw [Nat.pow_succ, Nat.mul_comm]
+    generalize hA : (2 : Nat) ^ w = A at hpow
+    have hcast1 : ((A : Nat) : Int) = (2 : Int) ^ w := by rw [← hA]; norm_cast
+    have hcast2 : ((2 ^ (w + 1) : Nat) : Int) = (2 : Int) ^ (w + 1) := by norm_cast
+    have hIpow : (2 : Int) ^ (w + 1) = 2 * (A : Int) := by rw [← hcast2, hpow]; norm_cast
+    rw [hcast2]
+    simp only [← hcast1, hIpow]
+    -- the digit
+    generalize hu : (if (u0 : Int) > (A : Int) then (u0 : Int) - 2 * (A : Int) else (u0 : Int)) = u
+    have hubound : Int.toNat u < 2 ^ 64 ∧ Int.toNat (-u) < 2 ^ 64 := by
+      rw [← hu]; split <;> omega
+    by_cases hpos : u > 0
+    · simp only [hpos, if_true]
+      obtain ⟨hf1, hf2⟩ := from_u64_limbs hubound.1
+      obtain ⟨hs1, hs2⟩ := PP.GenDerive.FrRepr_sub_noborrow_spec _ _ hcl hf1
+      obtain ⟨hd1, hd2⟩ := PP.GenDerive.FrRepr_div2_spec _ hs1
+      refine ⟨_, rfl, hd1, ?_⟩
+      rw [hd2, hs2, hf2, hcN, frW]
+    · simp only [hpos, if_false]
+      obtain ⟨hf1, hf2⟩ := from_u64_limbs hubound.2
+      obtain ⟨hs1, hs2⟩ := PP.GenDerive.FrRepr_add_nocarry_spec _ _ hcl hf1
+      obtain ⟨hd1, hd2⟩ := PP.GenDerive.FrRepr_div2_spec _ hs1
+      refine ⟨_, rfl, hd1, ?_⟩
+      rw [hd2, hs2, hf2, hcN, frW]
+  · have hp' : (cN % 2 == 1) = false := by simpa using hp
+    simp only [hp', Bool.false_eq_true, if_false, hp]
+    obtain ⟨hd1, hd2⟩ := PP.GenDerive.FrRepr_div2_spec _ hcl
+    exact ⟨_, rfl, hd1, by rw [hd2, hcN]⟩
+
+theorem wnafForm_loop (w : Nat) (old : List Int)
+    (cond : List Int × List Nat → Bool) (body : List Int × List Nat → Option (List Int × List Nat))
+    (hc : ∀ st, cond st = !(D.FrRepr.is_zero st.2)) (hb : ∀ st, body st = wnafBody w st) :
+    ∀ fuel wn cl acc, Limbs 4 cl → wn = old.take 0 ++ acc.reverse →
+      (match M.whileFuel fuel (wn, cl) cond body with
+        | none => none
+        | some (wnaf, _) => some wnaf)
+        = (wnafFormLoop w fuel (limbsToNat cl) acc).map (fun l => old.take 0 ++ l) := by
+  have hz : ∀ cl : List Nat, (!(D.FrRepr.is_zero cl)) = true ↔ limbsToNat cl ≠ 0 := by
+    intro cl
+    rw [PP.GenDerive.FrRepr_is_zero, Bool.not_eq_true', ← Bool.not_eq_true, isZero_iff]
+  intro fuel
+  induction fuel with
+  | zero =>
+    intro wn cl acc hcl hwn
+    rw [M.whileFuel, wnafFormLoop, hc]
+    by_cases h0 : limbsToNat cl = 0
+    · have : (!(D.FrRepr.is_zero cl)) = false := by
+        rw [Bool.eq_false_iff]; exact fun h => (hz cl).1 h h0
+      simp only [this, h0, Bool.false_eq_true, if_false, if_true, Option.map_some, hwn]
+    · have : (!(D.FrRepr.is_zero cl)) = true := (hz cl).2 h0
+      simp only [this, h0, if_true, if_false, Option.map_none]
+  | succ fuel ih =>
+    intro wn cl acc hcl hwn
+    rw [M.whileFuel, wnafFormLoop, hc]
+    by_cases h0 : limbsToNat cl = 0
+    · have : (!(D.FrRepr.is_zero cl)) = false := by
+        rw [Bool.eq_false_iff]; exact fun h => (hz cl).1 h h0
+      simp only [this, h0, Bool.false_eq_true, if_false, if_true, Option.map_some, hwn]
+    · have : (!(D.FrRepr.is_zero cl)) = true := (hz cl).2 h0
+      obtain ⟨cl', hb', hcl', hv'⟩ := wnafBody_spec w wn cl hcl
+      simp only [this, h0, if_true, if_false, hb, hb']
+      rw [← hv']
+      exact ih _ cl' ((wnafStep (limbsToNat cl) w).1 :: acc) hcl'
+        (by rw [hwn, List.reverse_cons, List.append_assoc])
+
+theorem wnafForm_fuel_eq (fuel : Nat) (old : List Int) (c w : Nat) :
+    M.wnafForm fuel old (limbsOf 4 c) w
+      = (wnafFormLoop w fuel (c % 2 ^ 256) []).map (fun l => old.take 0 ++ l) := by
+  unfold M.wnafForm
+  have e : c % 2 ^ 256 = limbsToNat (limbsOf 4 c) := (limbsToNat_limbsOf 4 c).symm
+  rw [e]
+  refine wnafForm_loop w old _ _ ?_ ?_ fuel _ _ [] ⟨limbsOf_length 4 c, limbsOf_ok 4 c⟩ (by simp)
+  · intro st; rfl
+  · intro st; rfl
+
+theorem wnafForm_eq (old : List Int) (c w : Nat) :
+    M.wnafForm 300 old (limbsOf 4 c) w = wnafForm old c w := wnafForm_fuel_eq 300 old c w
+end
 
 end PP.GenMsmLemmas
